@@ -14,6 +14,7 @@ Two scenario families.
       observation:  <parsed "difference starts at position"|~> <message bytes>"""
 from vlib import tz, tb
 ID = "C14"
+SEARCH_CAP = 4000        # search mode (a broken tie / correspondence): the thorough generator holds histories with 10^5 leaks, whose model evaluation takes minutes each
 FLAVOURS = ["asan"]
 HARNESS_SRCS = ["harness/C14.cpp"]
 CRASH_IS_VIOLATION = True
